@@ -392,7 +392,7 @@ def file_features(text):
         feats.add("char-kind-literal-positional")
     if re.search(r"bind\s*\([^)]*\)\s*result\s*\(", low):
         feats.add("bind-before-result")
-    if re.search(r"^\s*parameter\s*\([^=]*=\s*['\"]", low, re.M):
+    if re.search(r"^\s*parameter\s*\([^=\n]*=[^\n]*['\"]", low, re.M):
         feats.add("parameter-stmt-literal")
     if re.search(r"^[^!\n]*['\"][^\n]*\bfunction\s+\w+\s*\(", low, re.M):
         feats.add("function-prefix-literal")
@@ -457,6 +457,8 @@ def run(tier: str, seed: int, replay: str | None = None) -> int:
         n_fail = 0
         tree_feats = {}
         n_files = 0
+        from harness import c01_mask
+        tree_lits = {"statements_with_2plus_literals": 0, "placeholder_like_literal_after_first": 0}
         for k in range(n_tree):
             prng = random.Random(seed * 7777 + k)
             P = progen.gen_project(prng, 3)
@@ -467,6 +469,12 @@ def run(tier: str, seed: int, replay: str | None = None) -> int:
                 p = d / fn
                 p.write_text(text)
                 feats = file_features(text)
+                for ln in text.splitlines():
+                    if ln.count("'") + ln.count('"') >= 4:
+                        ls = [t for lit, t in c01_mask.split_literals(ln) if lit]
+                        tree_lits["statements_with_2plus_literals"] += len(ls) >= 2
+                        tree_lits["placeholder_like_literal_after_first"] += any(
+                            re.fullmatch(r'"\d+"', x) and int(x[1:-1]) < i for i, x in enumerate(ls))
                 for f_ in feats:
                     tree_feats[f_] = tree_feats.get(f_, 0) + 1
                 why = None
@@ -492,26 +500,43 @@ def run(tier: str, seed: int, replay: str | None = None) -> int:
                                   6000 if tier == "quick" else 120000, 1500 if tier == "quick" else 30000, rep)
         n_dis += pt["disagree"]
         n_fail += pt["oracle_fail"]
+        # ---------------- mask / restore streams (FordModel/Mask.lean) and the literal-dense declaration oracle
+        mk = c01_mask.run_mask(drv, ford, random.Random(seed * 515151 + 7), 1500 if tier == "quick" else 30000, rep, d, distinct)
+        rs = c01_mask.run_restore(drv, ford, random.Random(seed * 616161 + 11), 3000 if tier == "quick" else 80000, rep, d, distinct)
+        lt = c01_mask.run_lits(ford, random.Random(seed * 717171 + 13), 600 if tier == "quick" else 15000, rep, d, distinct)
+        n_dis += mk["disagree"] + rs["disagree"]
+        n_fail += lt["oracle_fail"]
     rep.coverage.update(
-        evaluations=len(cases) + n_files + pt["cases"] + pt["groups"],
+        evaluations=len(cases) + n_files + pt["cases"] + pt["groups"] + mk["cases"] + rs["cases"] + lt["cases"],
         distinct_nontrivial=len(distinct),
         rule="struct: statement-kind sequences (well-formed nestings, 1-3 point mutations of them, junk), distinct by token "
              "sequence; tree: generated abstract projects x random spellings, one evaluation per source file, distinct by text; "
-             "every case has at least one container",
+             "every case has at least one container; ptype: type-specification strings; mask: one-statement files (well-quoted, 1-2 point "
+             "mutations, junk), restore: placeholder texts x captured-string lists, lits: generated modules of literal-dense declarations "
+             "(mask, restore and lits cases are distinct by their text / text+strings)",
         samples=samples,
-        traces_validated_against_impl=len(cases) + pt["cases"] - pt["unmodelled"],
+        traces_validated_against_impl=len(cases) + pt["cases"] - pt["unmodelled"] + mk["cases"] - mk["unmodelled"]
+        + rs["cases"] - rs["unmodelled"],
         ptype_stream=pt,
+        mask_stream=mk,
+        restore_stream=rs,
+        lits_stream=lt,
         correspondence_disagreements=n_dis,
         oracle_failures=n_fail,
         struct_kind_histogram=hist,
         struct_outcome_histogram=dict(sorted(outcome_hist.items())),
         tree_feature_histogram=tree_feats,
+        tree_literal_statements=tree_lits,
     )
     rep.assumptions += [
         "which concrete statements each cascade regex accepts is tied by differential execution only (no Lean regex semantics)",
         "parse_type is modelled at character level (TypeSpec.lean) for ASCII input without line feeds; a quote inside a character kind "
         "expression is answered `unmodelled` by the model and skipped (counted) in the correspondence",
         "include, preprocessor, extra_vartypes, settings.lower and fixed form are outside the abstract program model",
+        "literal masking is modelled at character level (Mask.lean); in the restoring loop `int()` of a placeholder text with a sign, blanks, "
+        "underscores or non-ASCII digits is answered `unmodelled` (counted), and the backslash doubling + template expansion of re.sub is "
+        "modelled as a literal insertion (exercised by literals containing backslashes in the restore and lits streams); only the restoring "
+        "site of line_to_variables is modelled (the sites for PARAMETER statements, bind(C) names and character kinds are observed by the oracle only)",
         "tree stream observes FortranSourceFile objects (parse + _cleanup), before Project.correlate",
     ]
     return rep.finish(lean)
